@@ -1059,6 +1059,21 @@ func checkFile(c *core.Ctx, p *fparams, record bool) bool {
 	if !ok {
 		return false
 	}
+	// (b') the same sequential read by a reader that has no page index (the
+	// page cursor then finds its way through the dictionary and data page
+	// modules by their headers alone) and by one that loads neither index nor
+	// bloom filters
+	for vi, opts := range [][]parquet.FileOption{
+		{parquet.SkipPageIndex(true)},
+		{parquet.SkipPageIndex(true), parquet.SkipBloomFilters(true), parquet.FileReadMode(parquet.ReadModeAsync)},
+	} {
+		o := p.touchAll(data, full, rows, opts...)
+		if o.failed() || !reflect.DeepEqual(o.Rows, rows) {
+			c.Violation("roundtrip-no-index", fmt.Sprintf("reading an untampered encrypted file sequentially without its page index (option set %d): err=%v panic=%q hung=%v, %d rows, want %d; file %s", vi, o.Err, o.Panic, o.Hung, len(o.Rows), len(rows), p),
+				map[string]any{"kind": "file", "params": p})
+			return false
+		}
+	}
 	// reads after SeekToRow, with and without the page index
 	for t := 0; t < 3; t++ {
 		from := int64(c.Rng.Intn(len(rows) + 1))
@@ -1101,9 +1116,10 @@ func checkFile(c *core.Ctx, p *fparams, record bool) bool {
 // required columns against the rows written.
 func cursorHistories(c *core.Ctx, p *fparams, rows []rowP, data []byte, w *walked) bool {
 	ok := true
-	for t := 0; t < 4 && ok; t++ {
-		skipIndex := t == 3
-		col := []int{0, 1, 4, 1}[t]
+	for t := 0; t < 6 && ok; t++ {
+		// every required column with the page index, and without it
+		skipIndex := t >= 3
+		col := []int{0, 1, 4, 1, 4, 0}[t]
 		o := guard(20*time.Second, func(o *outcome) {
 			opts := []parquet.FileOption{parquet.WithDecryption(&keyset{p: p})}
 			if skipIndex {
